@@ -234,7 +234,7 @@ func isBufferBytes(v ssa.Value) bool {
 
 func ruleC11ProtectionTransitions(c *Ctx) {
 	u := c.U1
-	c.rule("C11.protection-transitions", "access: Protect(ReadOnly) on the accessCounter==0 edge before the increment; release: Protect(NoAccess) on the accessCounter==0 edge after the decrement; creation success returns are dominated by a successful Protect(NoAccess); newSecret success passes Alloc then Lock", 8)
+	c.rule("C11.protection-transitions", "access: Protect(ReadOnly) on the accessCounter==0 edge before the increment; release: Protect(NoAccess) on the accessCounter==0 edge after the decrement; creation success returns are dominated by a successful Protect(NoAccess); newSecret success passes Alloc then Lock", 6)
 	for _, be := range secBackends {
 		acc := u.Method(be.pkg, be.typ, "access")
 		rel := u.Method(be.pkg, be.typ, "release")
